@@ -120,6 +120,18 @@ static void genmi(size_t len, int cls)
 	if (rc == ERR_OK) { jBegin(); jStr("op", "valm"); jOct("m", out, len); jInt("rc", belsValM(out, len)); jEnd(); }
 }
 
+static void genmiBadM0(size_t len)
+{	/* a common key whose polynomial is reducible (constant term cleared: divisible by x): bels.h documents
+	   ERR_BAD_PUBKEY; the call must answer with an error in every build configuration, not stop */
+	octet m0[32], tape[96], out[32], echo[128]; err_t rc;
+	belsStdM(m0, len, 0); m0[0] &= 0xFE; vxRandBuf(tape, 96); memset(out, 0xEE, 32);
+	prngEchoStart(echo, tape, 3 * len);
+	rc = belsGenMi(out, len, m0, prngEchoStepR, echo);
+	jBegin(); jStr("op", "genmi_badm0"); jInt("len", (long long)len); jOct("m0", m0, len); jInt("rc", rc); jEnd();
+	rc = belsGenMid(out, len, m0, tape, 5);
+	jBegin(); jStr("op", "genmid_badm0"); jInt("len", (long long)len); jOct("m0", m0, len); jInt("rc", rc); jEnd();
+}
+
 static void std2(size_t len, size_t count, size_t thr)
 {	/* Share2 / Recover2 on the standard keys (blocks of len + 1 octets, first octet = user number) */
 	octet si[16 * 33], s[32], tape[16 * 32], out[32], echo[128]; err_t rc; size_t i;
@@ -146,7 +158,7 @@ int main(int argc, char** argv)
 	if (argc > 1 && strcmp(argv[1], "suite") == 0)
 	{	/* small deterministic run for the configuration / sanitizer sweeps */
 		for (l = 0; l < 3; ++l) { scheme(LN[l], 3, 2, 0); scheme(LN[l], 5, 3, 0); std2(LN[l], 16, 3); }
-		scheme(16, 2, 2, 1); genmi(16, 1); genmi(24, 2);
+		scheme(16, 2, 2, 1); genmi(16, 1); genmi(24, 2); genmiBadM0(16); genmiBadM0(32);
 		return 0;
 	}
 	for (l = 0; l < 3; ++l)
@@ -158,6 +170,7 @@ int main(int argc, char** argv)
 				if (count <= 6 && !g_thorough && l > 0 && (count > 4 || (count + thr + l) % 2)) continue;
 				scheme(LN[l], count, thr, 0);
 			}
+	for (l = 0; l < 3; ++l) genmiBadM0(LN[l]);
 	for (l = 0; l < 3; ++l) { int c; for (c = 0; c < 4; ++c) if (g_thorough || l == 0 || c == 1) genmi(LN[l], c); }
 	for (l = 0; l < 3; ++l) { scheme(LN[l], 3, 2, 1); std2(LN[l], 16, 1 + vxRandN(16)); std2(LN[l], 1, 1); std2(LN[l], 16, 16); }
 	return 0;
